@@ -55,6 +55,8 @@ type pool16 struct {
 	str        string
 	nested     any
 	nestedLeaf []int // backing of the nested leaves
+	nestedIn   []any // backing (with spare capacity) of the inner []any level of `nested`
+	nestedTop  []any // backing (with spare capacity) of the top []any level
 }
 
 func parsePairs(s string) map[int]int {
@@ -77,16 +79,28 @@ func newPool16(p []string) *pool16 {
 	// rows: the two slices (sentinel-backed copies of their own) in an outer slice with spare capacity
 	r1, _ := sent(parseInts(p[0]))
 	r2, _ := sent(parseInts(p[1]))
-	q.rowsB = make([][]int, 2+spare)
-	q.rowsB[0], q.rowsB[1] = r1, r2
-	q.rows = q.rowsB[:2:len(q.rowsB)]
+	r3, _ := sent(parseInts(p[7]))
+	q.rowsB = make([][]int, 3+spare)
+	q.rowsB[0], q.rowsB[1], q.rowsB[2] = r1, r2, r3
+	q.rows = q.rowsB[:3:len(q.rowsB)]
 	q.msB = make([]map[int]int, 2+spare)
 	q.msB[0], q.msB[1] = parsePairs(p[5]), parsePairs(p[6])
 	q.ms = q.msB[:2:len(q.msB)]
 	q.mm = []map[int]map[int]int{{1: parsePairs(p[5])}, {2: parsePairs(p[6])}}
 	leaf, lb := sent(parseInts(p[0]))
 	q.nestedLeaf = lb
-	q.nested = []any{leaf, []any{[]int{7, 8}}}
+	// every []any level sits in a backing array with spare capacity (sentinel strings behind it)
+	q.nestedIn = make([]any, 2, 2+spare)
+	q.nestedIn[0], q.nestedIn[1] = []int{7, 8}, 9
+	q.nestedTop = make([]any, 3, 3+spare)
+	q.nestedTop[0], q.nestedTop[1], q.nestedTop[2] = leaf, q.nestedIn, 5
+	for _, b := range [][]any{q.nestedIn, q.nestedTop} {
+		full := b[:cap(b)]
+		for i := len(b); i < len(full); i++ {
+			full[i] = "sentinel"
+		}
+	}
+	q.nested = q.nestedTop
 	return q
 }
 
@@ -148,7 +162,21 @@ func (q *pool16) snapshot() string {
 			fmt.Fprintf(&sb, "%d:%s", k, mapStr(v))
 		}
 	}
-	fmt.Fprintf(&sb, " leaf=%s str=%s", sliceStr(q.nestedLeaf), hx(q.str))
+	anyStr := func(b []any) string {
+		var parts []string
+		for _, x := range b[:cap(b)] {
+			switch v := x.(type) {
+			case []int:
+				parts = append(parts, sliceStr(v))
+			case []any:
+				parts = append(parts, fmt.Sprintf("any%d", len(v)))
+			default:
+				parts = append(parts, strings.ReplaceAll(fmt.Sprint(v), " ", "_"))
+			}
+		}
+		return fmt.Sprintf("%d[%s]", len(b), strings.Join(parts, "|"))
+	}
+	fmt.Fprintf(&sb, " leaf=%s nestedin=%s nestedtop=%s str=%s", sliceStr(q.nestedLeaf), anyStr(q.nestedIn), anyStr(q.nestedTop), hx(q.str))
 	return sb.String()
 }
 
@@ -340,8 +368,16 @@ var helpers16 = []helper16{
 	{"DropWhile", func(q *pool16) any { return gogu.DropWhile(q.s1, pred16(q.p)) }},
 	{"DropRightWhile", func(q *pool16) any { return gogu.DropRightWhile(q.s1, pred16(q.p)) }},
 	{"GroupBy", func(q *pool16) any { return gogu.GroupBy(q.s1, key16(q.f)) }},
-	{"Zip", func(q *pool16) any { return gogu.Zip(q.rows...) }},
-	{"Unzip", func(q *pool16) any { return gogu.Unzip(q.rows...) }},
+	{"Zip", func(q *pool16) any { return gogu.Zip(q.rows[:2]...) }},
+	{"Unzip", func(q *pool16) any { return gogu.Unzip(q.rows[:2]...) }},
+	// the helpers with variadic slices called with a SPREAD caller-owned outer slice (rows...)
+	{"Intersection2", func(q *pool16) any { return gogu.Intersection(q.rows...) }},
+	{"IntersectionBy2", func(q *pool16) any { return gogu.IntersectionBy(key16(q.f), q.rows...) }},
+	{"Merge4", func(q *pool16) any { return gogu.Merge(q.rows[0], q.rows[1:]...) }},
+	{"Zip2", func(q *pool16) any { return gogu.Zip(q.rows...) }},
+	{"Unzip2", func(q *pool16) any { return gogu.Unzip(q.rows...) }},
+	{"Without2", func(q *pool16) any { return gogu.Without[int, int](q.s1, q.rows[1]...) }},
+	{"Min2", func(q *pool16) any { return gogu.Min(q.rows[0]...) }},
 	{"ToSlice", func(q *pool16) any { return gogu.ToSlice(q.s1...) }},
 	{"Filter", func(q *pool16) any { return gogu.Filter(q.s1, pred16(q.p)) }},
 	{"Reject", func(q *pool16) any { return gogu.Reject(q.s1, pred16(q.p)) }},
